@@ -78,6 +78,14 @@ CLAIMED["C07"] = (
     "values only: index restoration and container type are pandas/polars code (cuts: _preprocess_arguments, _convert_arr_to_pandas_series, "
     "DataFrame/Series fakes); var/std/median/apply transform under C16", "DESIGN.md 4 C07")
 
+CLAIMED["C13"] = (
+    "state-machine steps on directly constructed GroupBy states (contiguous, chunked with pointer tables, chunked after unification): "
+    "(1) _unify_group_key_chunks preserves every row's global code, (2) sum/max/count_ikey/transform/cumsum/rolling_max/ema return in every "
+    "representation what they return for contiguous codes, (3) for every pair (7 x 6) of operations, running op1 then op2 on one object gives "
+    "what op2 gives on a fresh object (different values and masks per call), (4) GroupBy(existing) behaves like the original; solver-decided "
+    "for all chunk-local codes, pointer tables, values, masks within N<=4,G<=2, 2 chunks (quick) / N<=5, <=3 chunks, length-3 sequences (thorough)",
+    "cuts as in C07; caches holding pandas objects and the class-level call form are outside", "DESIGN.md 4 C13")
+
 NOT_APPLICABLE = {
     "C11": "labelling/order/shape are decided entirely by pandas Index/MultiIndex/DataFrame operations (C extension semantics); nothing symbolic to quantify over within reach of the encoder (DESIGN.md 5)",
     "C14": "margins and crosstab are reindex/groupby(level)/concat/unstack on pandas objects; not encodable (DESIGN.md 5)",
